@@ -2950,14 +2950,33 @@ class QuicConnection:
         self._remote_max_datagram_frame_size = (
             quic_transport_parameters.max_datagram_frame_size
         )
-        for param in [
+        flow_control_params = [
             "max_data",
             "max_stream_data_bidi_local",
             "max_stream_data_bidi_remote",
             "max_stream_data_uni",
             "max_streams_bidi",
             "max_streams_uni",
-        ]:
+        ]
+        if (
+            self._is_client
+            and not from_session_ticket
+            and self.tls.early_data_accepted
+        ):
+            # RFC 9000 section 7.4.1: a server which accepts 0-RTT data must not
+            # reduce the limits the client remembered and may already have used.
+            for param in flow_control_params:
+                value = getattr(quic_transport_parameters, "initial_" + param)
+                if (value or 0) < getattr(self, "_remote_" + param):
+                    raise QuicConnectionError(
+                        error_code=QuicErrorCode.PROTOCOL_VIOLATION,
+                        frame_type=QuicFrameType.CRYPTO,
+                        reason_phrase=(
+                            "initial_%s was reduced after 0-RTT data was accepted"
+                            % param
+                        ),
+                    )
+        for param in flow_control_params:
             value = getattr(quic_transport_parameters, "initial_" + param)
             if value is not None:
                 setattr(self, "_remote_" + param, value)
